@@ -82,6 +82,7 @@ func (d *driver) report(all []*result, loadTime float64) int {
 	instancesPerHarness := map[string]int{}
 	pathsPerHarness := map[string]int{}
 	proved, concreteAsserts := 0, 0
+	raceQ, raceT := 0, 0.0
 	exhausted := 0
 	var vreports []*violationReport
 	for _, r := range all {
@@ -92,6 +93,8 @@ func (d *driver) report(all []*result, loadTime float64) int {
 		solverTime += res.SolverTime
 		unknowns += res.Unknowns
 		proved += res.AssertsProved
+		raceQ += res.RaceQueries
+		raceT += res.RaceTime
 		concreteAsserts += res.AssertsConcrete
 		if res.Exhausted {
 			exhausted++
@@ -264,6 +267,8 @@ func (d *driver) report(all []*result, loadTime float64) int {
 		"instances_exhausted":      exhausted,
 		"interpreted_instructions": steps,
 		"assertions_proved_unsat":  proved,
+		"race_queries":             raceQ,
+		"race_solver_time_s":       round2(raceT),
 		"assertions_concrete":      concreteAsserts,
 		"solver":                   d.solver + " (incremental) with one-shot fallback z3-new/cvc5/z3",
 		"solver_time_s":            round2(solverTime),
